@@ -34,3 +34,60 @@ Theorem C03_ring_without_pos_reset_refuted : exists sz ops, 0 < sz /\
   snd (sq_run false sz (sq_new sz) ops) <> snd (lq_run [] ops).
 Proof. exact ring_without_pos_reset_refuted. Qed.
 Print Assumptions C03_ring_without_pos_reset_refuted.
+
+(* ------------------------------------------------------------------ *)
+(* (b), (c) at broker level (the ready list of the model is the list the ring above refines). *)
+From GMQ Require Import Broker.Model Proofs.BrokerFrames Proofs.BrokerTags Proofs.BrokerChanInv Proofs.BrokerReady.
+From Coq Require Import Sorted String ZArith Bool.
+Open Scope N_scope.
+
+(* (b) publication order: a publish appends at the TAIL of each matched queue and a delivery takes the HEAD, so
+   messages of one publisher channel (whose frames are handled in order) leave a queue in publication order.
+   The two facts, for any state: *)
+Theorem C03_publish_appends_at_tail :
+  forall fx s c h u m ex q,
+    get_msg s u = Some m -> alookup seqb (m_ex m) (exchanges s) = Some ex ->
+    R (fst (route_and_push fx s c h u)) q =
+    match R s q with
+    | Some l => Some (if existsb (seqb q) (matched_queues (negb (fx_direct_all fx)) ex (m_key m)) && push_target s q then l ++ [u] else l)
+    | None => None
+    end.
+Proof. exact route_places_once. Qed.
+Print Assumptions C03_publish_appends_at_tail.
+
+Theorem C03_delivery_takes_the_head :
+  forall cfg fx s c h tag q,
+    let s' := fst (consumer_turn cfg fx s c h tag) in
+    R s' q = R s q \/ exists u l, R s q = Some (u :: l) /\ R s' q = Some l.
+Proof. exact consumer_turn_pops_head. Qed.
+Print Assumptions C03_delivery_takes_the_head.
+
+(* (c) messages returned together (multiple nack, channel / connection closure) come back AHEAD of the never-delivered
+   messages and in the order in which they had been delivered: the returned block is the channel's unsettled deliveries
+   in increasing delivery-tag order. *)
+Theorem C03_batch_return_order_close :
+  forall cfg s c h q,
+    0 < h ->
+    R (channel_close cfg s c h) q =
+    match R s q with
+    | Some l => Some (map u_msg (filter (goes_to s q) (rev (sort_desc (U s c h)))) ++ l)
+    | None => None
+    end.
+Proof. exact channel_close_returns. Qed.
+Print Assumptions C03_batch_return_order_close.
+
+Theorem C03_batch_return_order_nack :
+  forall cfg s c h tag cls mth q,
+    R (fst (handle_reject cfg s c h tag true true cls mth)) q =
+    match R s q with
+    | Some l => Some (map u_msg (filter (goes_to s q) (rev (filter (covered tag) (sort_desc (U s c h))))) ++ l)
+    | None => None
+    end.
+Proof. exact reject_multiple_requeue_returns. Qed.
+Print Assumptions C03_batch_return_order_nack.
+
+(* rev (sort_desc l) is in increasing tag order *)
+Theorem C03_returned_block_is_tag_ordered :
+  forall l, Sorted (fun a b => u_tag b <= u_tag a) (sort_desc l).
+Proof. exact sort_desc_sorted. Qed.
+Print Assumptions C03_returned_block_is_tag_ordered.
